@@ -56,7 +56,7 @@ func ZZ_C17_pubwire(a []int) {
 	zzAssume(zzNoBang(topic))
 	e.str(topic)
 	pid := uint16(0)
-	if q != 0 {
+	if q == 1 || q == 2 {
 		pid = zzU16("pid")
 		e.u16(pid)
 	}
